@@ -116,7 +116,9 @@ Definition unity_matrix : list N :=
 Definition chunk (i : nat) (r : rsvT) : list N := nth i r [].
 
 (* ---------------------------------------------------------------- ftyp / styp / free / skip / mdat *)
+(* payloads shorter than major brand + minor version are rejected (repo commit c85b5f6) *)
 Definition dec_ftyp (h : hdr) : parser (leaf * rsvT) :=
+  if payload_len h <? 8 then pfail else
   pdo data <- rdB (payload_len h) ;; pret (LFtyp (h_name h) data, []).
 Definition dec_free (h : hdr) : parser (leaf * rsvT) :=
   pdo data <- rdB (payload_len h) ;; pret (LFree (h_name h) data, []).
@@ -228,7 +230,7 @@ Definition dec_sidx (h : hdr) : parser (leaf * rsvT) :=
   pdo ept <- rd w ;; pdo fo <- rd w ;;
   pdo r2 <- rdB 2 ;; pdo cnt <- rd 2 ;;
   fun bs =>
-    (pdo refs <- rd_many (length bs) cnt rd_sref ;;
+    (pdo refs <- rd_many (S (length bs)) cnt rd_sref ;;
      pret (LSidx (vf_version vf) (vf_flags vf) rid ts ept fo refs, [r2])) bs.
 
 (* ---------------------------------------------------------------- trex *)
@@ -265,7 +267,7 @@ Definition dec_stts (h : hdr) : parser (leaf * rsvT) :=
   pdo vf <- rd 4 ;; pdo cnt <- rd 4 ;;
   if negb (h_size h =? 16 + cnt * 8) then pfail else
   fun bs =>
-    (pdo es <- rd_many (length bs) cnt rd_pair ;;
+    (pdo es <- rd_many (S (length bs)) cnt rd_pair ;;
      pret (LStts (vf_version vf) (vf_flags vf) es, [])) bs.
 
 (* ---------------------------------------------------------------- encoders (bodies) *)
@@ -282,7 +284,7 @@ Definition body_leaf (l : leaf) (r : rsvT) : res (list N) :=
           wr_if (has f 8) 4 dur ++ wr_if (has f 16) 4 sz ++ wr_if (has f 32) 4 sf)
   | LTfdt v f t => Ok (be_enc 4 (vf_join v f) ++ (if v =? 0 then be_enc 4 t else be_enc 8 t))
   | LTrun v f doff fsf samples =>
-      if has f 1 && (doff =? 0) then Panic     (* panic("trun data offset not set") *)
+      if has f 1 && (doff =? 0) then Err     (* "trun data offset not set" (an error since repo commit babad8a) *)
       else Ok (be_enc 4 (vf_join v f) ++ be_enc 4 (lenN samples) ++ wr_if (has f 1) 4 doff ++
                wr_if (has f 4) 4 fsf ++ flat_map (wr_tsample f) samples)
   | LMvhd v f ct mt ts du rate vol nt =>
@@ -474,15 +476,12 @@ Definition rcat (a b : res (list N)) : res (list N) :=
   | Err => Err | Panic => Panic | OutOfFuel => OutOfFuel
   end.
 
-(* MoofBox.Encode(SW) first walks m.Traf.Truns: nil Traf panics, an unset data offset is an error *)
+(* MoofBox.Encode(SW) first walks the truns of every traf: an unset data offset is an error (repo commit 1704b4c) *)
 Definition trun_unset (t : mbox) : bool :=
   match t with MLeaf _ (LTrun _ f doff _ _) _ => has f 1 && (doff =? 0) | _ => false end.
-Definition moof_pre (cs : list mbox) : res unit :=
-  match find (fun c => bytes_eqb (box_name c) n_traf) cs with
-  | None => Panic
-  | Some (MCont _ tcs) => if existsb trun_unset tcs then Err else Ok tt
-  | Some _ => Ok tt
-  end.
+Definition traf_unset (t : mbox) : bool :=
+  match t with MCont h tcs => bytes_eqb (h_name h) n_traf && existsb trun_unset tcs | _ => false end.
+Definition moof_pre (cs : list mbox) : res unit := if existsb traf_unset cs then Err else Ok tt.
 
 Fixpoint raw_box (keep : bool) (t : mbox) : res (list N) :=
   match t with
